@@ -580,7 +580,18 @@ class CFG:
         b = self.blocks[bid]
         if b.get("cond") is None or len(b["succs"]) != 2:
             return None
-        return self.ids.get(b["cond"]), b["succs"][0], b["succs"][1]
+        cond = self.ids.get(b["cond"])
+        # the value that decides this branch is the right-most operand of a &&/|| chain:
+        # the operands to its left were decided by earlier blocks
+        while cond is not None:
+            c = cond
+            while c is not None and c["k"] in ("ParenExpr", "ImplicitCastExpr"):
+                c = c["c"][0]
+            if c is not None and c["k"] == "BinaryOperator" and c["op"] in ("&&", "||"):
+                cond = c["c"][1]
+            else:
+                break
+        return cond, b["succs"][0], b["succs"][1]
 
     def return_blocks(self):
         out = []
